@@ -454,6 +454,50 @@ def run_sequence(res, ss, spec, rng, tag, sd):
             return
 
 
+def limit_step(res, ss, spec, tag):
+    """EIG has run on ``ss`` (possibly several times)."""
+    # a limiter that changes its status between two analyses on the same System: a bound given as a plain parameter is moved
+    # across the present value of the limited quantity (own random stream: earlier histories stay what they were)
+    rng2 = rng_for(spec.get("seed", 0), PROPERTY, 77, 0 if spec["op"] is None else spec["op"] + 1)
+    if rng2.random() < 0.7:
+        from andes.core.discrete import Limiter
+        from andes.core.param import NumParam
+        cands = []
+        for mname, M in ss.exist.tds.items():
+            if M.n == 0:
+                continue
+            for dname, D in M.discrete.items():
+                if not isinstance(D, Limiter) or type(D).__name__ not in ("Limiter", "HardLimiter"):
+                    continue
+                up, uvar = getattr(D, "upper", None), getattr(D, "u", None)
+                if isinstance(up, NumParam) and up.name in M.params and hasattr(uvar, "v") and hasattr(uvar, "a") and len(np.atleast_1d(uvar.v)) == M.n:
+                    cands.append((mname, dname, up.name))
+        if cands:
+            mname, dname, pn = cands[int(rng2.integers(0, len(cands)))]
+            M = getattr(ss, mname)
+            D = M.discrete[dname]
+            j = int(rng2.integers(0, M.n))
+            dev = M.idx.v[j]
+            ss.vars_to_models()
+            uval = float(np.atleast_1d(D.u.v)[j])
+            kco = float(M.params[pn].pu_coeff[j]) if hasattr(M.params[pn], "pu_coeff") else 1.0
+            new = (uval - 0.05 * abs(uval) - 0.01) / (kco if kco else 1.0)
+            stag = "%s | limit step: " % tag
+            desc = "%s.%s[%r] := %.4g (upper bound of %s, limited quantity at %.4g)" % (mname, pn, dev, new, dname, uval)
+            try:
+                M.alter(pn, dev, new)
+                ok = ss.EIG.run()
+            except Exception as e:
+                res.violate("eig_raises", "%s%s; raised %r" % (stag, desc, e))
+                return
+            res.count("sequence_limit_moved_across_operating_value")
+            if ok:
+                zu = np.atleast_1d(D.zu)[j] if hasattr(D, "zu") else None
+                if zu == 1:
+                    res.count("sequence_limiter_engaged_before_second_analysis")
+                check_eig(res, ss, stag + desc, [z[:2] for z in ss._vf_zeroed], refresh=True)
+
+
 def run_case(spec):
     from vf import au
     from scipy.linalg import eig as geig
@@ -491,6 +535,8 @@ def run_case(spec):
         npos, nzer, nneg = int(ss.EIG.n_positive), int(ss.EIG.n_zeros), int(ss.EIG.n_negative)
         if spec["kind"] == "seq" and not res.violations:
             run_sequence(res, ss, spec, rng, tag, sd)
+        if spec["kind"] in ("seq", "var") and not res.violations and not res.inconclusive:
+            limit_step(res, ss, spec, tag)
         res.sig = tag
         res.nontrivial = res.obs.get("modes_matched", 0) >= 10
         res.sample = dict(case=spec["case"], operating_point=desc, zeroed=zeroed, states=n, zero_T=n - nz, modes=len(mu),
